@@ -99,6 +99,9 @@ def do_op(text, op, shared_param=None):
         try:
             rd = pyx12.x12context.X12ContextReader(param, pyx12.error_handler.errh_null(), io.StringIO(text))
             for node in rd.iter_segments(op.get('loop_id')):
+                if len(ev) > 300000:
+                    ev.append('TRUNCATED: event list grows without bound')
+                    break
                 if node.type == 'loop':
                     c = node.copy()
                     for e in c.iterate_loop_segments():
@@ -185,7 +188,11 @@ def check_case(case):
     shared = pyx12.params.params()
     seen = set()
     for step, (di, op, use_shared) in enumerate(hist):
-        got = do_op(docs[di], op, shared if use_shared else None)
+        try:
+            got = do_op(docs[di], op, shared if use_shared else None)
+        except MemoryError:
+            out.fail('history-dependence:%s:memory-exhausted' % op['kind'], 'step %d (document #%d, %s) ran out of memory (8 GiB cap) in the history but not in a fresh interpreter' % (step, di, op_key(op)))
+            break
         # results go through JSON in the baseline: normalise the same way
         got = json.loads(json.dumps(got))
         exp = base[(di, op_key(op))]
@@ -332,7 +339,7 @@ def baseline(text, ops, hashseed):     # memoised per process: a baseline is a p
 
 
 def shards(tier, seed):
-    return [{'shard': i, 'n': 40 if tier == 'thorough' else 4} for i in range(16)]
+    return [{'shard': i, 'n': 40 if tier == 'thorough' else 7} for i in range(16)]
 
 
 def run_shard(spec, seed, tier):
